@@ -358,7 +358,15 @@ def scenarios(prop, tier, rng):
         out.append(("n3f", scen(n=3, rpcfail=1, leader=1, consts=[True, True, False], out=[True, False, True])))
         out.append(("n2c", scen(n=2, cancel=1, out=[False, True])))
         out.append(("mix2", scen(n=2, cancel=1, rpcfail=1, stray=1, leader=1, consts=[True, False])))
+        # larger batches ("1..8 policies with concurrency 1..3", mixed leaders): the specification is explored by simulation
+        # only (scenario names starting with "sim"), the real actors are driven as for every other scenario
+        out.append(("simn2k5", scen(n=2, comps=5, leader=[0, 1, 0, 0, 1], conc=[2, 1], rpcfail=1, out=[True, False],
+                                    consts=[False, False])))
         if not q:
+            out.append(("simn2k8", scen(n=2, comps=8, leader=[0, 0, 1, 0, 1, 0, 0, 1], conc=[3, 2], rpcfail=1, cancel=1,
+                                        consts=[False, False])))
+            out.append(("simn3k4", scen(n=3, comps=4, leader=[2, 0, 2, 2], conc=[1, 1, 3], rpcfail=1, consts=[False, False, False],
+                                        out=[True, False, False])))
             out.append(("n2k3", scen(n=2, comps=3, leader=[0, 0, 1], conc=[2, 1], rpcfail=1)))
             out.append(("n2k2c", scen(n=2, comps=2, leader=[0, 0], conc=[1, 1], rpcfail=1, cancel=1)))
             out.append(("n2k3b", scen(n=2, comps=3, leader=[1, 1, 1], conc=[1, 2], consts=[False, False])))
@@ -386,7 +394,7 @@ def check_server(prop, tier, replay):
     for name, sc in ([] if os.environ.get("VERIF_SKIP_MC") else scs):
         invs = all_invs if name.startswith("mix") else MC_INVS[prop]
         big = len(sc["pol"]) * sc["n"] >= 6 or (sc["n"] == 3 and sum(sc["faults"].values()) > 0)
-        if q and big and prop != "C13":
+        if name.startswith("sim") or (q and big and prop != "C13"):
             # bounded by time in the quick tier: simulation
             r = run_mc(wd, f"mc-{name}", sc, invs, workers=4, timeout=300, simulate="num=3000", extra=["-depth", "300"])
             mode = "simulate"
